@@ -222,7 +222,7 @@ def run_scenarios(ctx, rec):
                     continue
                 created = sum(t["after"]["connects"].values()) > sum(t["before"]["connects"].values())
                 full = len(t["before"]["conns"]) >= cfg["max_connections"]
-                becomes_idle = op[0] in ("req", "read_close", "close", "open")
+                becomes_idle = op[0] in ("req", "req_rst", "read_close", "close", "open")
                 reasons = [s["expired"], s["server_closed"], created and full,
                            len(t["idle_socks"]) + (1 if becomes_idle else 0) > t["eff_mk"]]
                 if not any(reasons):
